@@ -109,8 +109,9 @@ def build(reg):
     reg.shapes["Ghost"].fields.update({"n_constructed": "nat", "n_attempted": "nat"})
     reg.external("call:int", ext_construct)
     reg.shape("RegExc", fields={"__class__": "int", "ctor_args": "any", "ctor_kwargs": "any"})
+    # an ApplicationError or an instance of a subclass of it; its class may itself be registered (class identity)
     reg.shape("AppErrIn", cls=EXC + ":ApplicationError",
-              fields={"error": "str", "args": "list:int", "kwargs": "opt:dict:str->int"})
+              fields={"error": "str", "args": "list:int", "kwargs": "opt:dict:str->int", "__class__": "int"})
     reg.shape("UserExcKw", fields={"__class__": "int", "args": "list:int", "kwargs": "opt:dict:str->int"},
               isa=("Exception", "BaseException"))
     reg.shape("UserExc", fields={"__class__": "int", "args": "list:int"}, isa=("Exception", "BaseException"))
